@@ -272,3 +272,158 @@ Proof.
   - destruct c as [a na| | | |]; try discriminate. cbn in Hb, Hm, Hn. inversion Hb; inversion Hm; subst.
     exact (atoms_unit_result v [(a, na)] Hn).
 Qed.
+
+(* ---------- groups and chains ---------- *)
+Lemma build_cond_group tbl cs :
+  build_cond tbl (UGroup cs) =
+  match build_chain_from tbl [] cs with
+  | None => None
+  | Some [] => Some []
+  | Some wh => Some (olist (mk_and (olist (mk_and (match wh with [XOr l] => [XAnd l] | _ => wh end)))))
+  end.
+Proof.
+  cbn [build_cond].
+  assert (H : forall cs acc,
+    (fix chain (acc : list expr) (cs : list (ckind * unit_)) : option (list expr) :=
+       match cs with
+       | [] => Some acc
+       | (k, u) :: r =>
+         match build_cond tbl u with
+         | None => None
+         | Some [] => chain acc r
+         | Some conds =>
+           chain (acc ++ match k with
+                         | KWhere => conds
+                         | KNot => olist (mk_not conds)
+                         | KOr => match mk_and conds with Some a => [XOr [a]] | None => [] end
+                         end) r
+         end
+       end) acc cs = build_chain_from tbl acc cs).
+  { clear cs. induction cs as [|[k u] r IH]; intros acc; [reflexivity|].
+    cbn [build_chain_from]. destruct (build_cond tbl u) as [[|c0 conds]|]; [apply IH|apply IH|reflexivity]. }
+  rewrite H. reflexivity.
+Qed.
+
+Definition seq_of (lm : list (ckind * (sem * sem))) : list (bool * sem) :=
+  map (fun kmn => match kmn with
+                  | (KWhere, (m, _)) => (false, m)
+                  | (KNot, (_, n)) => (false, n)
+                  | (KOr, (m, _)) => (true, m)
+                  end) lm.
+
+Lemma umean_group tbl cs :
+  umean tbl (UGroup cs) =
+  match mean_calls tbl cs with
+  | None => None
+  | Some [] => Some None
+  | Some [(KNot, (_, n))] => Some (Some (n, SNot n))
+  | Some [(_, (m, n))] => Some (Some (m, n))
+  | Some l =>
+    let m := prec_sem (seq_of l) in
+    let has_or := existsb (fun kmn => match fst kmn with KOr => true | _ => false end) (tl l) in
+    let n := if negb has_or && gt1 l then SAnd (map (fun bs => SNot (snd bs)) (seq_of l)) else SNot m in
+    Some (Some (m, n))
+  end.
+Proof.
+  cbn [umean].
+  assert (H : forall cs,
+    (fix chain (cs : list (ckind * unit_)) : option (list (ckind * (sem * sem))) :=
+       match cs with
+       | [] => Some []
+       | (k, u) :: r =>
+         match umean tbl u, chain r with
+         | Some None, Some l => Some l
+         | Some (Some mn), Some l => Some ((k, mn) :: l)
+         | _, _ => None
+         end
+       end) cs = mean_calls tbl cs).
+  { clear cs. induction cs as [|[k u] r IH]; [reflexivity|]. cbn [mean_calls]. rewrite IH. reflexivity. }
+  rewrite H. reflexivity.
+Qed.
+
+Lemma chain_seq_mean tbl cs : chain_seq tbl cs = option_map seq_of (mean_calls tbl cs).
+Proof.
+  induction cs as [|[k u] r IH]; [reflexivity|]. cbn [chain_seq mean_calls]. rewrite IH.
+  destruct (umean tbl u) as [[[m n]|]|]; destruct (mean_calls tbl r); try reflexivity; destruct k; reflexivity.
+Qed.
+
+(* the relation, with the facts needed to go through Where.Build *)
+Definition first_ok (e : expr) : Prop :=
+  match e with XAnd (x :: _) => is_single_or x = false | _ => True end.
+Definition R' (v : nat -> tv) (e : expr) (p : bool * sem) : Prop :=
+  R v e p /\ is_or e = fst p /\ first_ok e.
+
+Definition group_first_ok (tbl : atom_table) (cs : list call) : bool :=
+  match build_chain tbl cs with Some (e :: _) => negb (is_single_or e) | _ => true end.
+Fixpoint domx (tbl : atom_table) (u : unit_) : bool :=
+  match u with
+  | UGroup cs =>
+    group_first_ok tbl cs &&
+    (fix go (l : list (ckind * unit_)) : bool :=
+       match l with
+       | [] => true
+       | (k, u') :: r => domx tbl u' && (match k with KNot => flat tbl u' | _ => true end) && go r
+       end) cs
+  | _ => flat tbl u
+  end.
+Fixpoint calls_domx (tbl : atom_table) (cs : list call) : bool :=
+  match cs with
+  | [] => true
+  | (k, u) :: r => domx tbl u && (match k with KNot => flat tbl u | _ => true end) && calls_domx tbl r
+  end.
+Lemma domx_group tbl cs : domx tbl (UGroup cs) = group_first_ok tbl cs && calls_domx tbl cs.
+Proof.
+  cbn [domx]. f_equal. induction cs as [|[k u] r IH]; [reflexivity|]. cbn [calls_domx]. rewrite <- IH. reflexivity.
+Qed.
+
+Definition unit_res (v : nat -> tv) (isflat : bool) (conds : list expr) (mm : option (sem * sem)) : Prop :=
+  (conds = [] /\ mm = None) \/
+  exists e m n, conds = [e] /\ mm = Some (m, n) /\
+    okx e = true /\ closedx e = true /\ is_or e = false /\ first_ok e /\ dx v e = sev v m /\
+    (isflat = true -> exists nx, mk_not [e] = Some nx /\
+       okx nx = true /\ closedx nx = true /\ is_or nx = false /\ dx v nx = sev v n).
+
+Definition Punit (v : nat -> tv) (tbl : atom_table) (u : unit_) : Prop :=
+  forall conds mm, domx tbl u = true -> neg_pairs_ok v (unit_pairs u) ->
+  build_cond tbl u = Some conds -> umean tbl u = Some mm -> unit_res v (flat tbl u) conds mm.
+
+Lemma neg_pairs_app v a b : neg_pairs_ok v (a ++ b) -> neg_pairs_ok v a /\ neg_pairs_ok v b.
+Proof. intros H. split; intros p Hp; apply H, in_or_app; auto. Qed.
+
+Lemma closedx_single_or e : closedx (XOr [e]) = closedx e.
+Proof. reflexivity. Qed.
+Lemma closedx_single_and e : closedx (XAnd [e]) = closedx e.
+Proof. reflexivity. Qed.
+
+Lemma chain_R v tbl : forall cs acc exprs lm,
+  Forall (fun c => Punit v tbl (snd c)) cs -> calls_domx tbl cs = true ->
+  neg_pairs_ok v (calls_pairs cs) ->
+  build_chain_from tbl acc cs = Some exprs -> mean_calls tbl cs = Some lm ->
+  exists new, exprs = acc ++ new /\ Forall2 (R' v) new (seq_of lm).
+Proof.
+  induction cs as [|[k u] r IH]; intros acc exprs lm HP Hd Hn Hb Hm.
+  - inversion Hb; inversion Hm; subst. exists []. rewrite app_nil_r. split; [reflexivity|constructor].
+  - inversion HP as [|? ? Hu HPr]; subst. cbn [snd] in Hu.
+    cbn [calls_domx] in Hd. apply andb_prop in Hd. destruct Hd as [Hd Hdr]. apply andb_prop in Hd. destruct Hd as [Hdu Hk].
+    cbn [calls_pairs] in Hn. apply neg_pairs_app in Hn. destruct Hn as [Hnu Hnr].
+    cbn [build_chain_from mean_calls] in Hb, Hm.
+    destruct (build_cond tbl u) as [conds|] eqn:Eb; [|discriminate].
+    destruct (umean tbl u) as [mm|] eqn:Em; [|discriminate].
+    destruct (mean_calls tbl r) as [lr|] eqn:Er; [|destruct mm; discriminate].
+    destruct (Hu conds mm Hdu Hnu Eb Em) as [[-> ->]|[e [m [n [-> [-> [Hok [Hc [Hnor [Hfo [Hdx Hneg]]]]]]]]]]].
+    + inversion Hm; subst. exact (IH _ _ _ HPr Hdr Hnr Hb eq_refl).
+    + inversion Hm; subst. destruct k.
+      * destruct (IH _ _ _ HPr Hdr Hnr Hb eq_refl) as [new [-> HF]]. exists (e :: new).
+        rewrite <- app_assoc. split; [reflexivity|]. constructor; [|exact HF].
+        repeat split; cbn [fst snd]; try assumption. destruct e; try reflexivity; discriminate.
+      * destruct (Hneg Hk) as [nx [Hmk [Hokn [Hcn [Hnorn Hdn]]]]]. rewrite Hmk in Hb. cbn [olist] in Hb.
+        destruct (IH _ _ _ HPr Hdr Hnr Hb eq_refl) as [new [-> HF]]. exists (nx :: new).
+        rewrite <- app_assoc. split; [reflexivity|]. constructor; [|exact HF].
+        repeat split; cbn [fst snd]; try assumption.
+        -- destruct nx; try reflexivity; discriminate.
+        -- destruct nx; try exact I. cbn in Hmk. destruct e; inversion Hmk.
+      * cbn [mk_and] in Hb. rewrite Hnor in Hb.
+        destruct (IH _ _ _ HPr Hdr Hnr Hb eq_refl) as [new [-> HF]]. exists (XOr [e] :: new).
+        rewrite <- app_assoc. split; [reflexivity|]. constructor; [|exact HF].
+        repeat split; cbn [fst snd]; try assumption; try reflexivity.
+Qed.
